@@ -306,3 +306,77 @@ def build():
     C.assume("DeviceMonitor's generated __setattr__ (placeholder notification) does not change block state")
     C.assume("LogicBlockState objects are not aliased between blocks (A-NOALIAS; C11 shows they are per player)")
     return C
+
+
+def sequence_handlers_set():
+    """a sequence whose consecutive steps share an event must advance ONE step per posting: the handler of a later
+    step is registered with a higher priority, so it runs (and is rejected as out of order) before the earlier step's
+    handler advances the sequence"""
+    C = ContractSet("C18s", "sequence step handlers are ordered by step")
+    C.strings = False
+    C.cls("LogicBlock", fields={})
+    C.cls("EventManager", fields={})
+    NSTEP = common.bound(2, 3)
+
+    def add_handler(I, env, a, k):
+        emit(I, "add_handler", event=a[0] if a else k.get("event"), handler=a[1] if len(a) > 1 else k.get("handler"),
+             priority=(a[2] if len(a) > 2 else k.get("priority", VInt(1))), kwargs=dict(k))
+        return NONE
+    C.ext("EventManager.add_handler", model=add_handler, trusted_reason="EventManager.add_handler (C01): handlers of "
+          "one event run in descending priority; default priority 1")
+
+    def steps(I, name):
+        return I.new_list([VStr(z3.String("%s[%d]" % (name, i))) for i in range(I.ctx.fork(NSTEP + 1))], name)
+    C.cls("Sequence", file=LB, bases=["LogicBlock"],
+          fields=dict(config=Rec(events=Init(steps)), machine=ObjS("MachineController", events=ObjS("EventManager"))))
+    C.cls("Util", fields={})
+    C.globals["Util"] = VCls("Util")
+
+    def event_list(I, a, k):
+        """the events of one step: one or two names"""
+        base = I.force(a[0])
+        n = 1 + I.ctx.fork(2)
+        return I.new_list([VStr(z3.String(I.fresh_name("step_event"))) for _ in range(n)], I.fresh_name("events"))
+    C.globals["Util.string_to_event_list"] = VFn("model", model=event_list)
+
+    def ordered_by_step(I):
+        """every step gets its handlers (callback hit, argument step = its index), and handlers of later steps have a
+        strictly higher priority than those of earlier steps"""
+        this = I.frames[0].env["self"].ref
+        evs = events_named(I, "add_handler")
+        nsteps = len(I.container(I.force(I.read_field(I.force(I.read_field(this, "config")).ref, "events")).ref).items)
+        seen = set()
+        cs = []
+        for e in evs:
+            h = I.force(e.args["handler"])
+            if not (h.tag == "fn" and h.kind == "bound" and h.name == "hit" and h.obj is this):
+                return VBool(False)
+            st = e.args["kwargs"].get("step")
+            if st is None:
+                return VBool(False)
+            sv = z3.simplify(I.force(st).t)
+            if not z3.is_int_value(sv):
+                return VBool(False)
+            seen.add(sv.as_long())
+        if seen != set(range(nsteps)):
+            return VBool(False)
+        for a_ in evs:
+            for b_ in evs:
+                sa = z3.simplify(I.force(a_.args["kwargs"]["step"]).t).as_long()
+                sb = z3.simplify(I.force(b_.args["kwargs"]["step"]).t).as_long()
+                if sa < sb:
+                    cs.append(I.force(a_.args["priority"]).t < I.force(b_.args["priority"]).t)
+        return VBool(z3.And(cs + [z3.BoolVal(True)]))
+    C.helpers["ordered_by_step"] = ordered_by_step
+    C.trace_helpers = {"ordered_by_step"}
+    C.fn("Sequence.setup_event_handlers",
+         loops_by_text={"self.config['events']": LoopSpec(invariant=[], unroll=True),
+                        "string_to_event_list": LoopSpec(invariant=[], unroll=True)},
+         ensures=[("Q1: one posting of an event that belongs to consecutive steps advances the sequence by ONE step: "
+                   "handlers are registered per step with a priority that rises with the step", "ordered_by_step()")],
+         modifies=[], raises={}, bounded="BOUNDED: sequences of at most %d steps with 1-2 events each" % NSTEP)
+    return C
+
+
+def build_extra():
+    return [sequence_handlers_set()]
